@@ -19,3 +19,44 @@ def register(PROPS, h):
                    thorough={"private-refs-announcement-written": 50000, "subscribe-after-private-announcement": 10000}),
         runs=dict(quick=[native("h-node", "C11")], thorough=[native("h-node", "C11"), native("h-node", "C11", profile="release")]),
     )
+
+    PROPS["C10"] = dict(
+        title="Gossip is authenticated, fresh and never echoed back",
+        level="exploration",
+        technique="runtime checker over recorded inputs, every Io::Write of the real Service and the gossip store contents read after each step (shadow tables built from inputs only; own signature verification)",
+        rule=("Per case 3-5 connectable peers plus 2 far announcers, 2 local public repositories + 1 absent one, relay on (9/10); "
+              "25-54 (thorough: 25-94) steps: node/inventory/refs announcements by any node delivered through any connected peer with "
+              "timestamps older/equal/newer than the announcer's last, 2 h old, +59 min, exactly +60 min, +60 min + 1 ms, +61 min; "
+              "signatures valid, forged (other key), valid-but-for-another-message; re-deliveries of earlier announcements by the same "
+              "or another peer (half of them the most recent one, so several peers deliver it before the gossip tick); subscriptions; "
+              "connects/disconnects (Io::Disconnect is honoured); clock advances + wake. Oracle after every step: every foreign "
+              "announcement written or newly present in the store was delivered to us byte-for-byte, verifies under the announcer's key "
+              "(own check over wire::serialize(message)), was <= 1 h ahead at some receipt, is the only one of its (node, kind, repo), and "
+              "replaced its predecessor only with a strictly greater timestamp; inventory/refs are stored only after a valid node "
+              "announcement of that announcer was fed; nothing is written to its announcer; nothing is relayed to a peer that delivered "
+              "exactly it at an earlier step (messages written while answering that peer's own Subscribe are replays, checked for "
+              "everything but the echo clause). Non-trivial = case with at least one relay; distinct by case seed."),
+        assumptions=SVC_TB + ["'known node announcement' is read in the weakest way: a valid, not-too-future node announcement of the announcer was fed earlier"],
+        gates=dict(quick={"relays-observed": 8000, "relays-observed.of-multi-deliverer-announcement": 400, "fed.sig:forged-other-key": 1000, "fed.sig:valid-for-other-message": 500, "fed.ts:equal": 1000, "fed.ts:older": 1000,
+                          "fed.ts:+60min-exactly": 1000, "fed.ts:+60min+1ms": 1000, "store-replacements-observed": 500, "stored-announcements-observed": 5000, "replays-on-subscribe-observed": 500},
+                   thorough={"relays-observed": 40000, "relays-observed.of-multi-deliverer-announcement": 4000}),
+        runs=dict(quick=[native("h-node", "C10")], thorough=[native("h-node", "C10"), native("h-node", "C10", profile="release")]),
+    )
+
+    PROPS["C29"] = dict(
+        title="Node-signed announcement timestamps strictly increase",
+        level="exploration",
+        technique="runtime ordering monitor over every distinct announcement signed by the local key, collected from the outbox and the gossip store after each step, with sound creation-order bounds",
+        rule=("Per case 2-4 peers, 2-4 local repositories with signed refs; 30-59 (thorough: 30-99) steps: tick with a forward, equal or "
+              "backward time followed by wake, restart (initialize at the current or a later clock), connect+subscribe / disconnect, "
+              "AnnounceRefs, AddInventory/Unseed/Seed, fetch commands and successful fetch results (which add inventory and announce refs). "
+              "Every distinct own announcement (by message bytes) is recorded at the step it first surfaces. Oracle: an announcement whose "
+              "creation cannot precede step c (refs: the step it surfaced; inventory: the last initialize) has a timestamp strictly greater "
+              "than every own announcement that surfaced before c; all distinct own announcements have pairwise different timestamps; per "
+              "(kind, repository) timestamps increase in observation order. The node announcement handed to Service::new is created by the "
+              "environment and exempt. Non-trivial = case with >= 4 distinct own announcements; distinct by case seed."),
+        assumptions=SVC_TB + ["an own announcement is stored in the gossip store (or written) in the step that creates it, except the inventory announcement built inside initialize()"],
+        gates=dict(quick={"own-announcements-observed": 30000, "own-announcements-observed.after-clock-stalled-or-went-back": 10000},
+                   thorough={"own-announcements-observed": 600000, "own-announcements-observed.after-clock-stalled-or-went-back": 200000}),
+        runs=dict(quick=[native("h-node", "C29")], thorough=[native("h-node", "C29"), native("h-node", "C29", profile="release")]),
+    )
